@@ -42,7 +42,38 @@ def unit_c06_crc(src, outdir):
                         "verbatim `acc as u8` truncating cast is an uninterpreted function for Verus (same symbol in code and spec); its meaning is the Kani obligation vk_c06_crc_increment_one_byte"],
             "dropped": "nothing from the bodies; contract clauses, loop invariant, ghost `acc0` and three proof blocks are spliced between /*@verif-splice*/ markers and stripped again for the verbatim comparison"}
 
-UNITS = {"C06": [unit_c06_crc]}
+def lemma_unit(name, spec_files, lemma_file, lemmas, about):
+    """A lemma-layer unit: spec functions single-sourced from /verif/specs (the same text is compiled into the Kani
+    build as crate::verif_spec) translated mechanically by verus/spec2verus.py, plus a hand-written lemma file."""
+    def mk(src, outdir):
+        import spec2verus
+        parts = []
+        for f in spec_files:
+            try:
+                parts.append("// ---- translated from specs/%s\n" % f + spec2verus.translate(open(os.path.join(V, "specs", f)).read()))
+            except spec2verus.TranslateError as e:
+                raise X.ExtractError("spec translation of %s failed: %s" % (f, e))
+        text = "use vstd::prelude::*;\nverus! {\n%s\n%s\n}\nfn main() {}\n" % ("\n".join(parts), open(os.path.join(V, "verus", lemma_file)).read())
+        path = os.path.join(outdir, name + ".rs")
+        open(path, "w").write(text)
+        return {"name": "verus_" + name, "file": path, "functions": [], "lemmas": lemmas,
+                "assumed": ["the spec functions are what the Kani postconditions compare the real code with (%s); machine integers in them are proved overflow-free by the Kani spec harnesses, so spec `as` casts are identities" % about],
+                "dropped": "n/a (no repo code in this unit: lemma layer over single-sourced spec functions)"}
+    mk.__name__ = name
+    return mk
+
+UNITS = {
+    "C06": [unit_c06_crc],
+    "C08": [lemma_unit("c08_transport", ["transport.rs"], "c08_transport.lemmas.rs",
+                       ["lemma_valid_run_is_delivered (L-C08): any fragment of 1..=cap bytes segmented the standard way is delivered whole from any receiver state", "lemma_seq_masked"],
+                       "vk_c08_asm_* : Assembler::assemble == spec::assembler_step")],
+    "C18": [lemma_unit("c18_timesync", [], "c18_timesync.lemmas.rs",
+                       ["lemma_lan_error_is_forward_delay", "lemma_non_lan_error_is_half_asymmetry (L-C18)"],
+                       "vk_c18_write_at_last_recorded_time: written = value + elapsed; the master-side (rtt-p)/2 is NOT verified")],
+    "C17": [lemma_unit("c17_backoff", ["backoff.rs"], "c17_backoff.lemmas.rs",
+                       ["lemma_backoff_closed_form (L-C17): k-th consecutive failure is delayed min(min*2^(k-1), max), within [min, max]"],
+                       "vk_c17_backoff_* : ExponentialBackOff::on_failure == spec::backoff_next")],
+}
 
 def run(pid, tier, src, scratch):
     outdir = os.path.join(scratch, "verus")
